@@ -905,7 +905,11 @@ def run(ctx):
                 "(list,set,tuple,array,predicate) x kernel implementation x receiver route rotating evenly (full "
                 "product for the smallest grids); vector/metadata predicates with call logs; random larger tables "
                 "after sort_order/align_to/concat/transpose/filter histories; unknown IDs; remove_empty over "
-                "{-1,0,1} grids; head. non-trivial = table with >= 2 cells / matrix with >= 1 vector; "
+                "{-1,0,1} grids; head; wide/tall receivers (64-150 IDs on an axis) with small ID collections in non-axis "
+                "order; two-step chains (filter dropping a non-trailing ID, then filter / remove_empty / head / request "
+                "naming a removed ID on the result); the `biom head` command on JSON/HDF5/TSV files; after every table-level "
+                "step the table's own index(id) (always), data(id) (chains, wide, every 8th case) and exists(removed id) "
+                "are observed. non-trivial = table with >= 2 cells / matrix with >= 1 vector; "
                 "distinct = distinct (receiver recipe, request, implementation)")
     ctx.trusted = ["scipy tocsr()/tocsc()/sort_indices()/transpose/toarray are external: the layout handed to the "
                    "model is read from scipy, sort_indices is modelled by its contract (sortIndices)",
@@ -938,13 +942,13 @@ def run(ctx):
         shards = Shards(ctx, batch, impls, grids, 4, pool)
         kernel_cases(ctx, batch, impls, 6000 // wn, fixed=first)
         unknown_id_cases(ctx, batch, impls, 1500 // wn, fixed=first)
-        remove_empty_cases(ctx, batch, impls, [(1, 3), (2, 2), (2, 3), (3, 2), (3, 3)], 4000 // wn)
+        remove_empty_cases(ctx, batch, impls, [(1, 3), (2, 2), (2, 3), (3, 2), (3, 3)], 2500 // wn)
         if first:
             head_cases(ctx, batch, impls)
             cli_head_cases(ctx, batch)
         chain_cases(ctx, batch, impls, ctx.worker)
-        wide_cases(ctx, batch, impls, 4000 // wn)
-        random_cases(ctx, batch, impls, 24000 // wn, 8)
+        wide_cases(ctx, batch, impls, 1200 // wn)
+        random_cases(ctx, batch, impls, 16000 // wn, 8)
     batch.flush()
     shards.collect()
     ctx.notes.append("exhaustive part of worker %d/%d: %d grids%s" % (
